@@ -33,8 +33,8 @@
 (* ascending; here: ascending integers); dict _members keeps insertion      *)
 (* order; `for k in d.keys(): d.pop(k)` raises RuntimeError after the first *)
 (* pop.                                                                    *)
-(* The consumer raises from on_join(m) for m \in rj and from on_leave(m)    *)
-(* for m \in rl (a policy fixed per behaviour).                             *)
+(* The consumer raises from on_join for member values in rj and from       *)
+(* on_leave for values in rl (a policy fixed per behaviour).                *)
 (* The property machine ZkAbs is folded over the callbacks of every step;   *)
 (* `viol` keeps the first failing clause.                                   *)
 (*                                                                         *)
@@ -53,7 +53,10 @@
 (***************************************************************************)
 EXTENDS ZkAbs, SequencesExt, IOUtils
 
-CONSTANTS Names,      \* member names: small positive integers
+CONSTANTS Names,      \* member node names: 1..N
+          NValues,    \* number of distinct member data values: node m carries Data[m] (below);
+                      \* NValues < number of names: names m and m + NValues carry equal data
+                      \* (one instance registering again under a new node name)
           MaxEnv,     \* length bound of the tree history
           MaxInc,     \* how many times the path may be created
           MaxRaise    \* size bound of the raising policy
@@ -64,6 +67,9 @@ FixDW == "ZKFIX_DW" \in DOMAIN IOEnv   \* children watch restarted per incarnati
 \* a weaker form of the last repair (the watch of a deleted incarnation is not invalidated),
 \* kept only as a generator of regression histories for the real code
 NoInv == "ZKFIX_NOINV" \in DOMAIN IOEnv
+\* a plausible wrong design ("make before break": the joins of a listing are delivered before its
+\* leaves), also only a generator of regression histories
+JoinsFirst == "ZKFIX_JBL" \in DOMAIN IOEnv
 
 VARIABLES parent, pinc, kids, dataW, childW,   \* server
           c,                                   \* client (record, see Init)
@@ -72,6 +78,8 @@ VARIABLES parent, pinc, kids, dataW, childW,   \* server
 svars == <<parent, pinc, kids, dataW, childW>>
 vars == <<svars, c, rj, rl, envn, lastAct, viol, ast>>
 
+Data == [m \in Names |-> ((m - 1) % NValues) + 1]
+Values == {Data[m] : m \in Names}
 SGs == {"S1", "S2", "S3", "S4"}
 GIds == {"IG", "CW"} \cup SGs
 
@@ -83,8 +91,8 @@ NW0 == [pc |-> "qget", removed |-> {}, todo |-> <<>>, got |-> <<>>, kids |-> {}]
 Issue(s, g) == [s EXCEPT !.reqs = Append(@, g)]
 Emit(s, evs) == [s EXCEPT !.out = @ \o evs]
 
-LeaveEvs(m) == IF m \in rl THEN <<Mk("Leave", m), Mk("Raised", 0)>> ELSE <<Mk("Leave", m)>>
-JoinEvs(m) == IF m \in rj THEN <<Mk("Join", m), Mk("Raised", 0)>> ELSE <<Mk("Join", m)>>
+LeaveEvs(m) == IF Data[m] \in rl THEN <<Mk("Leave", m, Data[m]), Mk("Raised", 0, 0)>> ELSE <<Mk("Leave", m, Data[m])>>
+JoinEvs(m) == IF Data[m] \in rj THEN <<Mk("Join", m, Data[m]), Mk("Raised", 0, 0)>> ELSE <<Mk("Join", m, Data[m])>>
 RECURSIVE Flat(_)
 Flat(ss) == IF ss = <<>> THEN <<>> ELSE Head(ss) \o Flat(Tail(ss))
 MapSeq(s, Op(_)) == [i \in DOMAIN s |-> Op(s[i])]
@@ -206,7 +214,8 @@ NWFinish(s) ==
       rem == Sorted(s.nw.removed)
       leaving == SelectSeq(rem, LAMBDA m : m \in Range(mem1))
       mem2 == SelectSeq(mem1, LAMBDA m : m \notin s.nw.removed)
-      evs == Flat(MapSeq(leaving, LeaveEvs)) \o Flat(MapSeq(got, JoinEvs))
+      evs == IF JoinsFirst THEN Flat(MapSeq(got, JoinEvs)) \o Flat(MapSeq(leaving, LeaveEvs))
+             ELSE Flat(MapSeq(leaving, LeaveEvs)) \o Flat(MapSeq(got, JoinEvs))
   IN NWLoop(Emit([s EXCEPT !.members = mem2, !.nw = NW0], evs))
 NWRead(s) == IF s.nw.todo = <<>> THEN NWFinish(s) ELSE Issue([s EXCEPT !.nw.pc = "rd"], "NW")
 NWBatch(s, b) ==
@@ -253,7 +262,7 @@ Init ==
           nodes |-> {}, members |-> <<>>, watching |-> FALSE, winc |-> 0, gen |-> 0,
           nq |-> <<>>, nwnotif |-> FALSE, nw |-> NW0,
           reqs |-> <<"IG">>, runq |-> <<>>, out |-> <<>>, over |-> FALSE]
-  /\ rj \in SUBSET Names /\ rl \in SUBSET Names
+  /\ rj \in SUBSET Values /\ rl \in SUBSET Values
   /\ Cardinality(rj) + Cardinality(rl) <= MaxRaise
   /\ envn = 0
   /\ lastAct = <<"Init", 0>>
@@ -281,7 +290,7 @@ PCreate ==
   /\ parent' = TRUE /\ pinc' = pinc + 1 /\ dataW' = FALSE
   /\ UNCHANGED <<kids, childW>>
   /\ c' = Cascade(Dispatch(Fresh, DCb))
-  /\ Judge(<<Mk("PCreate", 0)>>, c')
+  /\ Judge(<<Mk("PCreate", 0, 0)>>, c')
   /\ envn' = envn + 1 /\ lastAct' = <<"PCreate", 0>>
   /\ UNCHANGED <<rj, rl>>
 
@@ -290,16 +299,17 @@ PDelete ==
   /\ parent' = FALSE /\ dataW' = FALSE /\ childW' = <<>>
   /\ UNCHANGED <<kids, pinc>>
   /\ c' = Cascade(Dispatch(Fresh, DCb \o CbsOf(childW)))
-  /\ Judge(<<Mk("PDelete", 0)>>, c')
+  /\ Judge(<<Mk("PDelete", 0, 0)>>, c')
   /\ envn' = envn + 1 /\ lastAct' = <<"PDelete", 0>>
   /\ UNCHANGED <<rj, rl>>
 
 ZCreate(m) ==
   /\ parent /\ m \notin kids /\ envn < MaxEnv
+  /\ \A k \in kids : Data[k] # Data[m]     \* no two equal registrations alive at once (see ZkAbs)
   /\ kids' = kids \cup {m} /\ childW' = <<>>
   /\ UNCHANGED <<parent, pinc, dataW>>
   /\ c' = Cascade(Dispatch(Fresh, CbsOf(childW)))
-  /\ Judge(<<Mk("ZCreate", m)>>, c')
+  /\ Judge(<<Mk("ZCreate", m, Data[m])>>, c')
   /\ envn' = envn + 1 /\ lastAct' = <<"ZCreate", m>>
   /\ UNCHANGED <<rj, rl>>
 
@@ -308,7 +318,7 @@ ZDelete(m) ==
   /\ kids' = kids \ {m} /\ childW' = <<>>
   /\ UNCHANGED <<parent, pinc, dataW>>
   /\ c' = Cascade(Dispatch(Fresh, CbsOf(childW)))
-  /\ Judge(<<Mk("ZDelete", m)>>, c')
+  /\ Judge(<<Mk("ZDelete", m, Data[m])>>, c')
   /\ envn' = envn + 1 /\ lastAct' = <<"ZDelete", m>>
   /\ UNCHANGED <<rj, rl>>
 
